@@ -312,8 +312,8 @@ func diffViews(exp, got *wview, checkSHA bool) string {
 		if fmt.Sprint(e.Perm) != fmt.Sprint(g.Perm) {
 			d = append(d, fmt.Sprintf("%s: PERMANENTFLAGS %v, expected %v", n, g.Perm, e.Perm))
 		}
-		if ga := stored(g.Attrs); fmt.Sprint(e.Attrs) != fmt.Sprint(ga) {
-			d = append(d, fmt.Sprintf("%s: LIST attributes %v, expected %v", n, ga, e.Attrs))
+		if fmt.Sprint(stored(e.Attrs)) != fmt.Sprint(stored(g.Attrs)) {
+			d = append(d, fmt.Sprintf("%s: LIST attributes %v, expected %v", n, g.Attrs, e.Attrs))
 		}
 		es, gs := msgsString(e.Msgs), msgsString(g.Msgs)
 		if es != gs {
